@@ -29,6 +29,10 @@ def element_reset(chk, F, which):
     cfg = F.cfg
     model, spec, P = scanners.product(F, which)
     init_keys = {k: label for label, k in P.init_keys}
+    if not model.sub_key('reset'):
+        chk.ob('%s/element-reset/%s/%s' % (PID, cfg, which), 'reset yields the initial value', 'proved',
+               found='the element type has no reset method of its own; the outer reset is interpreted as a whole (outer-reset obligation)', nontrivial=False)
+        return
     for key in P.order:
         cs, ss, cons, label = P.pairs[key]
         rows = [r for r in P.rows if r.pair_key == key and r.kind == 'reset']
